@@ -64,7 +64,7 @@ def check_case(case):
         res.classes.add("muxrail")
         return res
     else:  # mux without a live input, next to a live shared source
-        spec = mux_spec([tuple(x) for x in case["inputs"]], case["pal"], case["rs_list"], below="deep", mux_pc=case.get("mux_pc"))
+        spec = mux_spec([tuple(x) for x in case["inputs"]], case["pal"], case["rs_list"], below="deep", mux_pc=case.get("mux_pc"), pol=case.get("pol", 1))
     if case.get("move"):
         # analysis first, then a leaf load is moved (delete + add, same counts, index re-used) under the element that sleeps in one phase
         from ..sysmodel import build, observe, move_leaf, LOADS
@@ -158,6 +158,17 @@ def gen_cases(tier):
                         yield dict(fam="phase", f=f, pal=pal, pol=1, srs=0.37, who=c["n"], pc=["b"], chain=(n == 4))
                         if n == 4:
                             yield dict(fam="phase", f=f, pal=pal, pol=1, srs=0.37, who=c["n"], pc=["a"], chain=True)
+        # nano- / micro-amp loads below the dead element: "zero" means exactly 0, not "below the solver's absolute tolerance"
+        tiny = Trees(["RL", "CVc", "PSc", "LRc", "RMc"], ["ILn", "ILu", "IL"])
+        for n in ((1, 2, 3) if tier == "quick" else (1, 2, 3, 4)):
+            for f in tiny.iter_forests(n):
+                if "ILn" not in str(f):
+                    continue
+                yield dict(fam="zero", f=f, pal=pal, pol=1 if n % 2 else -1)
+                spec = spec_from_forest(f, pal, 1, 0.37)
+                for c in spec["comps"]:
+                    if c["k"] in PHASE_LIST_KINDS:
+                        yield dict(fam="phase", f=f, pal=pal, pol=1, srs=0.37, who=c["n"], pc=["a"])
         for n1 in (1, 2):
             for f1 in mid.iter_forests(n1):
                 for f2 in mid.iter_forests(1):
@@ -177,6 +188,9 @@ def gen_cases(tier):
             for inputs in itertools.product(allopts if k == 2 else allopts[::2], repeat=k):
                 for mpc in (["a"], ["b"]):
                     yield dict(fam="mux", inputs=[list(x) for x in inputs], pal=pal, rs_list=True, mux_pc=mpc)
+                if k == 2:   # negative rails: a dead first input beside a live NEGATIVE one
+                    yield dict(fam="mux", inputs=[list(x) for x in inputs], pal=pal, rs_list=False, mux_pc=["a"], pol=-1)
+                    yield dict(fam="mux", inputs=[list(x) for x in inputs], pal=pal, rs_list=False, pol=-1)
 
 
 def replay(doc):
